@@ -467,7 +467,7 @@ func c12Bases() [][2]c12Spec {
 func TestVerifC12(t *testing.T) {
 	r := ev.Begin("C12", "pairs")
 	defer r.End(t)
-	r.Rule = "pairs (own RA, received RA): for each of 11 aspects (hop limit, M, O, reachable, retransmit, MTU, prefixes, routes, RDNSS, DNSSL, captive portal) the full product of a small value domain (absent / equal / different lifetime, contents, count, order, preference, prefix length; both directions) with the other aspects equal (from a full and a minimal base) - quick; all pairs of aspects, full product of both - thorough; the received RA always passes through ndp.MarshalMessage/ParseMessage; checked on verifyRAs and through Advertiser.handle (log lines, inconsistencies_total, hook); non-trivial = the two RAs differ in at least one compared aspect or share an option kind; distinct = distinct (own, received)"
+	r.Rule = "pairs (own RA, received RA): for each of 11 aspects (hop limit, M, O, reachable, retransmit, MTU, prefixes, routes, RDNSS, DNSSL, captive portal) the full product of a small value domain (absent / equal / different lifetime, contents, count, order, preference, prefix length; both directions) with the other aspects equal (from a full and a minimal base), plus every aspect different at once and all-but-one (up to 17 inconsistencies in one RA) - quick; all pairs of aspects, full product of both - thorough; the received RA always passes through ndp.MarshalMessage/ParseMessage; checked on verifyRAs and through Advertiser.handle (log lines, inconsistencies_total, hook); non-trivial = the two RAs differ in at least one compared aspect or share an option kind; distinct = distinct (own, received)"
 	r.Assumptions = []string{"a difference in hop limit where one side is 0 (unspecified) is a don't-care: RFC 4861 exempts it, the statement says 'differing'"}
 
 	if r.Replay != nil {
@@ -493,6 +493,36 @@ func TestVerifC12(t *testing.T) {
 		r.Sample(c)
 		for _, v := range c12Check(c) {
 			r.Violation(v[0], v[1], c)
+		}
+	}
+	// Everything different at once (and all-but-one aspect): many inconsistencies in one RA,
+	// each of them reported and counted.
+	{
+		b := c12Bases()[0]
+		for skip := -1; skip < len(asp); skip++ {
+			own, recv := b[0], b[1]
+			own.Prefixes = []c12Pfx{{"2001:db8:1::/64", 100, 50}, {"2001:db8:2::/64", 200, 100}}
+			own.Routes = []c12Rt{{"2001:db8:f000::/48", "medium", 100}, {"2001:db8:e000::/48", "high", 50}}
+			own.RDNSS = []c12DNS{{100, []string{"2001:db8::53"}}, {50, []string{"2001:db8::54"}}}
+			recv = own
+			recv.MAC, recv.PREF64 = b[1].MAC, b[1].PREF64
+			diff := []func(){
+				func() { recv.Hop = 65 }, func() { recv.M = !own.M }, func() { recv.O = !own.O }, func() { recv.Reach = 2 }, func() { recv.Retrans = 2 },
+				func() { recv.MTU = 1280 },
+				func() { recv.Prefixes = []c12Pfx{{"2001:db8:1::/64", 110, 60}, {"2001:db8:2::/64", 210, 90}} },
+				func() {
+					recv.Routes = []c12Rt{{"2001:db8:f000::/48", "medium", 90}, {"2001:db8:e000::/48", "high", 40}}
+				},
+				func() { recv.RDNSS = []c12DNS{{90, []string{"fd00::53"}}, {40, []string{"fd00::53"}}} },
+				func() { recv.DNSSL = []c12SL{{90, []string{"a.example", "c.example"}}} },
+				func() { recv.CP = "https://portal.example/b" },
+			}
+			for i, f := range diff {
+				if i != skip {
+					f()
+				}
+			}
+			one([]string{"many", fmt.Sprint("all-but-", skip)}, own, recv)
 		}
 	}
 	for _, b := range c12Bases() {
